@@ -11,7 +11,9 @@
 From Coq Require Import ZArith List String Bool.
 From Gigue Require Import Types Bits Isa Enc GenTables Builder BuilderTies Samplers Generator Machine MachineLemmas
   SplitProofs FragProofs GenLemmas ImageSem CtorSpec C12Defs C12Proofs
-  GenWF GenWFProps SliceLemmas GenWF2 GenWF2Props BodyExec GenWF5 CodeMem MethodContract SaveRestore WholeImage Loader Reloc RelocRun.
+  GenWF GenWFProps SliceLemmas GenWF2 GenWF2Props BodyExec GenWF5 CodeMem MethodContract SaveRestore WholeImage Loader Reloc
+  CallFrameRimi MethodContractRimi WholeImageRimi LoaderRimi RimiFullExec WholeImageRimiFull LoaderRimiFull
+  GenWF9F WalkK FixerTamper FixerCall MethodContractFixer WholeImageFixer LoaderFixer RelocRun.
 Import ListNotations.
 Open Scope Z_scope.
 
@@ -60,7 +62,7 @@ Proof. exact files_position_independent. Qed.
    the shifted configuration, whose image is the same words (theorem above).
    `_partial`: equality of the executed instruction SEQUENCE (not only of its
    length, the structure of the run and its final state) and of the sequence of
-   data offsets is not stated; the three protected variants are not instantiated. *)
+   data offsets is not stated; the three protected variants: theorems below. *)
 Theorem C07_plain_image_runs_relocated_partial : forall d, d mod 4 = 0 ->
   forall c script img,
   successful c script img -> plain c -> (uses_tramp (c_variant c) = true -> c_data_reg c <> 6) ->
@@ -72,6 +74,43 @@ Theorem C07_plain_image_runs_relocated_partial : forall d, d mod 4 = 0 ->
       run (gv c) L (image_steps c img eh) s0 = (Next s', image_steps c img eh) /\ pc s' = halt_at L /\
       dom s' = 0 /\ cfi s' = [].
 Proof. exact plain_image_runs_relocated. Qed.
+
+(* the same for the three protected variants (RelocRun.v): the relocated files run to the
+   halt address in exactly the number of steps computed from the ORIGINAL image *)
+Theorem C07_rimiss_image_runs_relocated_partial : forall d, d mod 4 = 0 ->
+  forall c script img,
+  successful c script img -> c_variant c = GRimiSS -> c_data_reg c <> 6 -> cfg_ok (shc d c) = true ->
+  forall L s0, Init (shc d c) (shi d img) (WholeImageRimi.rNtot c img) L s0 -> code_lo L = int_start_al c + d ->
+    code_hi L - code_lo L < 2147483648 - 2048 -> pics_encodable (shi d img) ->
+    WholeImageRimi.SSmax img <= zlen (im_ss img) ->
+    (forall r o, In (r, o) int_slots -> 0 <= rget s0 r < W64) ->
+    exists s' eh, map fst eh = im_elements img /\
+      run (gv c) L (WholeImageRimi.rimage_steps img eh) s0 = (Next s', WholeImageRimi.rimage_steps img eh) /\ pc s' = halt_at L /\
+      rget s' 28 = ss_hi L /\ dom s' = 0 /\ cfi s' = [].
+Proof. exact rimiss_image_runs_relocated. Qed.
+
+Theorem C07_rimifull_image_runs_relocated_partial : forall d, d mod 4 = 0 ->
+  forall c script img,
+  successful c script img -> c_variant c = GRimiFull -> c_data_reg c <> 6 -> cfg_ok (shc d c) = true ->
+  forall L s0, Init (shc d c) (shi d img) (WholeImageRimiFull.fNtot c img) L s0 -> code_lo L = int_start_al c + d ->
+    code_hi L - code_lo L < 2147483648 - 2048 -> pics_encodable (shi d img) ->
+    WholeImageRimiFull.FSW img <= zlen (im_ss img) ->
+    (forall r o, In (r, o) int_slots -> 0 <= rget s0 r < W64) ->
+    exists s' eh, map fst eh = im_elements img /\
+      run (gv c) L (WholeImageRimiFull.fimage_steps img eh) s0 = (Next s', WholeImageRimiFull.fimage_steps img eh) /\ pc s' = halt_at L /\
+      rget s' 28 = ss_hi L /\ dom s' = 0 /\ cfi s' = [].
+Proof. exact rimifull_image_runs_relocated. Qed.
+
+Theorem C07_fixer_image_runs_relocated_partial : forall d, d mod 4 = 0 ->
+  forall c script img,
+  successful c script img -> c_variant c = GFixer -> c_data_reg c <> 6 -> cfg_ok (shc d c) = true ->
+  forall L s0, Init (shc d c) (shi d img) (WholeImageFixer.xNtot c img) L s0 -> code_lo L = int_start_al c + d ->
+    code_hi L - code_lo L < 2147483648 - 2048 -> pics_encodable (shi d img) ->
+    (forall r o, In (r, o) int_slots -> 0 <= rget s0 r < W64) ->
+    exists s' eh, map fst eh = im_elements img /\
+      run (gv c) L (WholeImageFixer.ximage_steps img eh) s0 = (Next s', WholeImageFixer.ximage_steps img eh) /\ pc s' = halt_at L /\
+      dom s' = 0 /\ cfi s' = [].
+Proof. exact fixer_image_runs_relocated. Qed.
 
 (* accepted configurations stay accepted under any shift that keeps the start address non-negative *)
 Theorem C07_shifted_configuration_accepted : forall d c,
@@ -112,6 +151,9 @@ Proof. exact fragments_well_formed. Qed.
 Print Assumptions C07_generator_translation_equivariant.
 Print Assumptions C07_files_do_not_depend_on_load_address.
 Print Assumptions C07_plain_image_runs_relocated_partial.
+Print Assumptions C07_rimiss_image_runs_relocated_partial.
+Print Assumptions C07_rimifull_image_runs_relocated_partial.
+Print Assumptions C07_fixer_image_runs_relocated_partial.
 Print Assumptions C07_shifted_configuration_accepted.
 Print Assumptions C07_call_stub_relative_partial.
 Print Assumptions C07_address_save_relative_partial.
